@@ -127,6 +127,16 @@ def cases(it, S):
     add("Parent longer than its own parent", "parent.parent:Parent.__init__",
         lambda: mk_parent(it, sequence=mk_sequence(it, "ACGTACGT", "NT_STRICT"), parent=mk_parent(it, sequence=mk_sequence(it, "ACG", "NT_STRICT"))), {"LocationException"})
     add("Sequence violating its alphabet", "sequence.sequence:Sequence.__init__", lambda: mk_sequence(it, "ACGTX", "NT_STRICT"), {"AlphabetError"})
+    # characters that are not letters of the alphabet are refused wherever they stand: blanks, line ends, digits, at either end or inside
+    for label, text in (("trailing newline", "ACGT\n"), ("leading newline", "\nACGT"), ("trailing blank", "ACGT "), ("inner blank", "AC GT"),
+                        ("trailing CRLF", "ACGT\r\n"), ("inner newline", "AC\nGT"), ("tab", "ACGT\t"), ("digit", "ACG7"), ("lower-case stranger", "acgx"),
+                        ("newline only", "\n")):
+        for alpha in ("NT_STRICT", "NT_EXTENDED_GAPPED"):
+            add(f"Sequence with a {label} ({alpha})", "sequence.sequence:Sequence.__init__", (lambda text=text, alpha=alpha: mk_sequence(it, text, alpha)), {"AlphabetError"})
+        add(f"validate_alphabet with a {label}", "sequence.sequence:Sequence.validate_alphabet",
+            (lambda text=text: it.call_func(it.repo.fn("sequence.sequence:Sequence.validate_alphabet"), [text, it.enum("Alphabet")["NT_STRICT"]], {}, None, 0)), {"AlphabetError"})
+    add("variant allele with a trailing newline", "gene.variants:VariantInterval.__init__",
+        lambda: it.apply(ClassTok("VariantInterval"), [3, 4, "T\n", "SNV"], {"parent_or_seq_chunk_parent": par}, None, 0), {"AlphabetError"})
     add("Sequence length differs from its parent location", "sequence.sequence:Sequence.__init__",
         lambda: mk_sequence(it, "ACGT", "NT_STRICT", parent=mk_parent(it, location=si(0, 9, S["PLUS"]))), {"MismatchedParentException"})
     add("reverse complement of a protein", "sequence.sequence:Sequence.reverse_complement",
